@@ -156,6 +156,16 @@ CHECKS = {
               "also the anomaly flags. Non-trivial = >=2 pieces and >=1 escape or '+'; distinct by input (and chunking for the random part)"),
         assumptions=["query strings in the end-to-end part avoid whitespace, '#' and control bytes (request-line syntax)"],
     ),
+    "C16": dict(
+        bins=["c16"], replay_bin="c16", campaigns=lambda tier, seed: [dict(name="c16", bin="c16", shards=16, timeout=3000)], level="exploration",
+        rule=("rapidcheck scenarios: [0-2 preceding tagged pairs] + CONNECT (or GET + Upgrade) + client payload in {tagged HTTP requests, TLS-like bytes, random bytes with LF/NUL, "
+              "none, binary without LF/NUL of 40..40000 bytes} + response status in {200,201,204,299,101,407,403,404,500} with/without body + server-side bytes; cut plans for both "
+              "streams (random, fixed step, biased to the last bytes of the CONNECT head), 0-2 request calls before any response byte, auto-destroy on/off, 10 personalities. "
+              "Non-trivial = payload shares a chunk with the CONNECT head or a cut falls within the last 4 bytes of the head; distinct by scenario text"),
+        assumptions=["the feeder follows the DATA_OTHER hand-over, offers a response only after all bytes of its request, and offers server-side tunnel bytes only after a call returned TUNNEL",
+                     "a 2xx CONNECT without client payload stays open (completion not required)",
+                     "without LF/NUL the probe may wait; tunnel mode is required only once the payload exceeds what the parser can buffer (hard field limit)"],
+    ),
     "C17": dict(
         bins=["c17"], replay_bin="c17", campaigns=_c17, level="exploration",
         rule=("list: every op sequence over {push,pop,shift,replace} up to depth 11 (thorough 13) on capacities 1..3 (exhaustive BFS) "
